@@ -316,3 +316,27 @@ M("C05", "C05-ORDER", MP, "    return np.concatenate(results)\n", "    return np
 T("C05", PYX, "        # Zero-out array:\n        for i in range(self.n_linear):\n            for j in range(self.n_linear):\n                self.Ainv[i, j] = 0.\n", "        # Zero-out array:\n        for j in range(self.n_linear):\n            for i in range(self.n_linear):\n                self.Ainv[i, j] = 0.\n", "zero-fill loops interchanged")
 M("C05", "C05-ROWS", UT, "    batch = np.zeros((len(idx), len(columns)))\n    with tb.open_file(prior_samples_file, mode=\"r\") as f:\n        for i, name in enumerate(columns):\n            batch[:, i] = f.root[path].read_coordinates(idx, field=name)\n",
   "    batch = np.zeros((len(idx), len(columns)))\n    order = np.argsort(idx)\n    with tb.open_file(prior_samples_file, mode=\"r\") as f:\n        for i, name in enumerate(columns):\n            arr = f.root[path].read_coordinates(idx[order], field=name)\n            batch[:, i] = arr[order]\n", "sorted read restored with the wrong permutation (seeded C05-A)")
+
+# ---------------------------------------------------------------- C09
+_LOGP_OLD = "            res = pt.switch(\n                (value >= a) & (value <= b),\n                -pt.log(value) - pt.log(_fac),\n                -np.inf,\n            )\n            return check_parameters(\n                res,\n                (a > 0) & (a < b),\n                msg=\"a > 0 and a < b\",\n            )\n\nelse:"
+M("C09", "C09-FORM", DI, _LOGP_OLD, _LOGP_OLD.replace("-pt.log(value) - pt.log(_fac)", "-value - pt.log(_fac)"), "logp subtracts the value (reverse of fix, variant 1)")
+M("C09", "C09-FORM", DI, _LOGP_OLD, _LOGP_OLD.replace("-pt.log(value) - pt.log(_fac)", "-pt.log(value) + pt.log(_fac)"), "sign of the normalisation")
+M("C09", "C09-SUPP", DI, _LOGP_OLD, _LOGP_OLD.replace("            res = pt.switch(\n                (value >= a) & (value <= b),\n                -pt.log(value) - pt.log(_fac),\n                -np.inf,\n            )\n", "            res = -pt.log(value) - pt.log(_fac)\n"), "support switch deleted (reverse of fix)")
+M("C09", "C09-SUPP", DI, _LOGP_OLD, _LOGP_OLD.replace("(value >= a) & (value <= b)", "(value >= a)"), "only the lower bound tested")
+M("C09", "C09-SUPP", DI, _LOGP_OLD, _LOGP_OLD.replace("(value >= a) & (value <= b)", "(value >= a) | (value <= b)"), "bounds joined with or")
+T("C09", DI, _LOGP_OLD, _LOGP_OLD.replace("-pt.log(value) - pt.log(_fac)", "-pt.log(value) - pt.log(pt.log(b / a))"), "log(b/a) written as one logarithm")
+M("C09", "C09-FORM", DI, "            return np.exp(uu * _fac + np.log(a))\n\n    uniformlog = UniformLogRV()\n\n    class UniformLog(pm.Continuous):\n        rv_op = uniformlog\n\n        @classmethod\n        def dist(cls, a, b, **kwargs):\n            a = pt.as_tensor_variable(a)\n            b = pt.as_tensor_variable(b)\n            return super().dist([a, b], **kwargs)\n\n        def support_point(rv, size, a, b):\n            a, b = pt.broadcast_arrays(a, b)\n            return 0.5 * (a + b)\n\n        def logp",
+  "            return uu * _fac + np.log(a)\n\n    uniformlog = UniformLogRV()\n\n    class UniformLog(pm.Continuous):\n        rv_op = uniformlog\n\n        @classmethod\n        def dist(cls, a, b, **kwargs):\n            a = pt.as_tensor_variable(a)\n            b = pt.as_tensor_variable(b)\n            return super().dist([a, b], **kwargs)\n\n        def support_point(rv, size, a, b):\n            a, b = pt.broadcast_arrays(a, b)\n            return 0.5 * (a + b)\n\n        def logp", "rng_fn forgets the exponential")
+M("C09", "C09-FCM", DI, "** (-1 / 3) / np.sqrt(1 - e**2),", "** (-1 / 2) / np.sqrt(1 - e**2),", "period exponent -1/2")
+M("C09", "C09-FCM", DI, "** (-1 / 3) / np.sqrt(1 - e**2),", "** (-1 / 3) / (1 - e**2),", "eccentricity factor without the square root")
+M("C09", "C09-FCM", DI, "        sigma = pt.clip(\n            sigma_K0.value * (P / P0.value) ** (-1 / 3) / np.sqrt(1 - e**2),\n            0.0,\n            max_K.value,\n        )\n", "        sigma = sigma_K0.value * (P / P0.value) ** (-1 / 3) / np.sqrt(1 - e**2)\n", "cap at max_K dropped")
+M("C09", "C09-FCM", DI, "        if K_unit is not None:\n            sigma_K0 = sigma_K0.to_value(K_unit)\n        max_K = max_K.to(sigma_K0.unit)\n", "        if K_unit is not None:\n            sigma_K0 = sigma_K0.to_value(K_unit)\n            max_K = max_K.to(K_unit)\n", "max_K only converted on the K_unit path (seeded C09-A)")
+M("C09", "C09-FCM", DI, "            P0 = P0.to(getattr(P, UNIT_ATTR_NAME))\n", "            pass\n", "P0 not converted to the period unit")
+M("C09", "C09-KIP", DI, "alpha=0.867, beta=3.03", "alpha=0.867, beta=3.3", "Kipping global beta 3.3")
+M("C09", "C09-WIRE", PR, "UniformLog(\"P\", P_min.value, P_max.to_value(P_min.unit)), P_min.unit", "UniformLog(\"P\", P_min.value, P_max.value), P_min.unit", "P_max stripped in its own unit")
+M("C09", "C09-WIRE", PR, "out_pars[\"e\"] = xu.with_unit(Kipping13Global(\"e\"), u.one)", "out_pars[\"e\"] = xu.with_unit(Kipping13Short(\"e\"), u.one)", "eccentricity default switched to the short-period fit")
+M("C09", "C09-WIRE", PR, "pm.Normal(name, 0.0, sigma_v[name].value), sigma_v[name].unit", "pm.Normal(name, 0.0, sigma_v[name].value), sigma_v['v0'].unit", "trend terms labelled with v0's unit")
+M("C09", "C09-SUM", PR, "                    _logp = pm.logp(par, raw_samples[par.name]).eval()\n", "                    _logp = pm.logp(par, raw_samples['P']).eval()\n", "every term evaluated on the P column")
+M("C09", "C09-SUM", PR, "            log_prior = np.sum(logp, axis=0)\n", "            log_prior = np.max(logp, axis=0)\n", "sum -> max")
+M("C09", "C09-SUM", PR, "            for par in sub_pars.values():\n                try:\n", "            for par in sub_pars.values():\n                if par.name in ('omega', 'M0', 's'):\n                    continue\n                try:\n", "constant-looking variables skipped up front (seeded C09-B)")
+M("C09", "C09-SUM", PR, "            prior_samples[name] = np.atleast_1d(raw_samples[name]) * unit\n", "            prior_samples[name] = np.atleast_1d(raw_samples[par_names[0]]) * unit\n", "every column filled with the first variable's draws")
